@@ -770,24 +770,47 @@ func loggingOnlyFork(g *Guard) bool {
 
 func plainBranches(r *Run, fn *ssa.Function) []string {
 	set := map[string]bool{}
-	for _, g := range r.P.Info(fn).guards {
-		if g.Reject != "" || g.Block.Succs[0] == g.Block.Succs[1] {
-			continue
+	var collect func(f *ssa.Function, subst func(Cond) Cond, depth int)
+	collect = func(f *ssa.Function, subst func(Cond) Cond, depth int) {
+		for _, g := range r.P.Info(f).guards {
+			if g.Reject != "" || g.Block.Succs[0] == g.Block.Succs[1] {
+				continue
+			}
+			if loggingOnlyFork(g) {
+				continue
+			}
+			// error plumbing (comparing an error value with nil or a sentinel) is not a data condition:
+			// nested, flattened and switch spellings of one error-handling cascade fork differently
+			if bo, ok := g.If.Cond.(*ssa.BinOp); ok && (isErrorType(bo.X.Type()) || isErrorType(bo.Y.Type())) {
+				continue
+			}
+			c := subst(g.Cond)
+			s, n := c.String(), c.Negate().String()
+			if n < s {
+				s = n
+			}
+			set[s] = true
 		}
-		if loggingOnlyFork(g) {
-			continue
+		if knownFuncs == nil || depth >= 2 {
+			return
 		}
-		// error plumbing (comparing an error value with nil or a sentinel) is not a data condition:
-		// nested, flattened and switch spellings of one error-handling cascade fork differently
-		if bo, ok := g.If.Cond.(*ssa.BinOp); ok && (isErrorType(bo.X.Type()) || isErrorType(bo.Y.Type())) {
-			continue
+		// the forks of a helper that is new relative to the reviewed tree are forks of its caller, in
+		// the caller's terms: a skip or fast path added while "extracting" a block is a new branch
+		env := r.P.Env(f)
+		for _, b := range f.Blocks {
+			for _, in := range b.Instrs {
+				ci, ok := in.(ssa.CallInstruction)
+				if !ok || !env.isNewHelper(ci.Common()) {
+					continue
+				}
+				h := ci.Common().StaticCallee()
+				args := env.callPath(ci.Common()).Args
+				hasRecv := h.Signature.Recv() != nil
+				collect(h, func(c Cond) Cond { return subst(c.Subst(args, hasRecv)) }, depth+1)
+			}
 		}
-		s, n := g.Cond.String(), g.Cond.Negate().String()
-		if n < s {
-			s = n
-		}
-		set[s] = true
 	}
+	collect(fn, func(c Cond) Cond { return c }, 0)
 	var out []string
 	for s := range set {
 		out = append(out, s)
